@@ -479,7 +479,8 @@ func (s *state) appendHandler(
 		Body: "*",
 	}
 	if err := s.path.addRule(implicitRule, desc, h.method); err != nil {
-		panic(fmt.Sprintf("bug: %v", err))
+		// Another method has bound kind "*" on this method's own path.
+		return fmt.Errorf("[%s] implicit rule %s: %w", desc.FullName(), implicitRule.String(), err)
 	}
 
 	// Add all ServiceConfig.http rules.
